@@ -184,7 +184,7 @@ def check_box(case):
 @st.composite
 def malformed_cases(draw, tier):
     name = draw(st.sampled_from(sorted(SCORERS)))
-    n = draw(st.integers(6, 10))
+    n = draw(st.integers(9, 12))
     p = draw(st.integers(1, 2))
     k = width(name)
     kind = draw(st.sampled_from(["mixed_batch", "float", "bool", "wrong_width", "zero_rows", "three_d", "list",
@@ -211,6 +211,8 @@ def check_malformed(case):
     with sut(f"{name}.fit"):
         scorer = build_scorer(name).fit(X)
     valid_pool = valid_rows_for(name, p, n)
+    if len(valid_pool) < 3:
+        return {"nontrivial": False, "classes": ["too_few_valid_cuts_skipped"]}
     rows = case["rows"]
     all_valid = all(len(r) == k and is_valid(name, p, n, r) for r in rows)
     expect_error = True
